@@ -30,6 +30,9 @@ var dstNodeType = reflect.TypeOf((*dst.Node)(nil)).Elem()
 var decsType = reflect.TypeOf(dst.Decorations(nil))
 
 func (d *treeDumper) strID(s string) int {
+	if s == "" {
+		return 0 // the zero string is uid 0 in the model (zero_val)
+	}
 	if id, ok := d.strs[s]; ok {
 		return id
 	}
